@@ -356,6 +356,129 @@ fn reachable(sk: &[Vec<usize>]) -> BTreeSet<usize> {
     seen
 }
 
+
+// ---------------------------------------------------------------- fixed shapes, present at every seed
+// (the shapes of regressions that were seeded into the SSA code and must stay caught: entry block in its own
+// dominance frontier, scope restoration of ScalarVersioning across dominator-tree siblings, a scalar read and
+// written by the same instruction as the only reader, deep dominator computations with path compression)
+const NFIXED: u64 = 8;
+fn fixed_case(idx: u64) -> Option<(Pools, Vec<Vec<usize>>, &'static str, Function)> {
+    if idx >= NFIXED {
+        return None;
+    }
+    let all: Vec<(String, usize)> = vec![("a".into(), 32), ("b".into(), 32), ("f".into(), 1)];
+    let mut o = GenOpts::default();
+    o.scalars = all.clone();
+    let p = Pools { all, read: o.clone(), guard: o, guard_only: None };
+    let a = || il::expr_scalar("a", 32);
+    let b = || il::expr_scalar("b", 32);
+    let k = |v: u64| il::expr_const(v, 32);
+    let sa = || il::scalar("a", 32);
+    let sb = || il::scalar("b", 32);
+    let add = |x: Expression, y: Expression| Expression::add(x, y).unwrap();
+    type Fill = Box<dyn Fn(&mut il::Block)>;
+    let nopb: fn() -> Fill = || Box::new(|_b: &mut il::Block| {});
+    let (name, fills, sk): (&'static str, Vec<Fill>, Vec<Vec<usize>>) = match idx {
+        0 => ("fixed:entry-self-loop", vec![
+                Box::new(move |bl| bl.assign(sa(), add(a(), k(1)))),
+                Box::new(move |bl| bl.assign(sb(), a()))],
+              vec![vec![0, 1], vec![]]),
+        1 => ("fixed:entry-self-loop-only", vec![Box::new(move |bl| bl.assign(sa(), add(a(), k(1))))], vec![vec![0]]),
+        2 => ("fixed:scope-siblings", vec![
+                Box::new(move |bl| { bl.assign(sa(), k(1)); bl.assign(sb(), k(2)); }),
+                Box::new(move |bl| { bl.assign(sa(), add(a(), k(1))); bl.assign(sa(), add(a(), k(2))); bl.assign(sb(), a()); }),
+                Box::new(move |bl| bl.assign(sb(), a())),
+                Box::new(move |bl| bl.assign(sb(), add(a(), b()))),
+                Box::new(move |bl| bl.assign(sa(), b())),
+                Box::new(move |bl| bl.assign(sb(), add(a(), b())))],
+              vec![vec![1, 2], vec![3], vec![4], vec![5], vec![5], vec![]]),
+        3 => ("fixed:scope-deep", vec![
+                Box::new(move |bl| bl.assign(sa(), k(0))),
+                Box::new(move |bl| bl.assign(sa(), add(a(), k(1)))),
+                Box::new(move |bl| bl.assign(sa(), add(a(), k(1)))),
+                Box::new(move |bl| bl.assign(sa(), add(a(), k(1)))),
+                Box::new(move |bl| bl.assign(sb(), a())),
+                Box::new(move |bl| bl.assign(sb(), a())),
+                Box::new(move |bl| bl.assign(sb(), a()))],
+              vec![vec![1, 4], vec![2, 5], vec![3, 6], vec![], vec![], vec![], vec![]]),
+        4 => ("fixed:self-read-write", vec![
+                nopb(),
+                Box::new(move |bl| bl.assign(sa(), add(a(), k(1)))),
+                Box::new(move |bl| bl.assign(sb(), a()))],
+              vec![vec![1], vec![1, 2], vec![]]),
+        5 => ("fixed:self-read-write-load", vec![
+                Box::new(move |bl| bl.assign(sa(), k(0x1000))),
+                Box::new(move |bl| { bl.load(sa(), a()); bl.store(k(0x1004), a()); }),
+                nopb()],
+              vec![vec![1], vec![1, 2], vec![]]),
+        6 => {
+            // the flow graph of Lengauer & Tarjan's paper: R=0 A=1 B=2 C=3 D=4 E=5 F=6 G=7 H=8 I=9 J=10 K=11 L=12
+            let sk = vec![vec![1, 2, 3], vec![4], vec![1, 4, 5], vec![6, 7], vec![12], vec![8], vec![9], vec![9, 10],
+                          vec![5, 11], vec![11], vec![9], vec![9, 0], vec![8]];
+            let mut fills: Vec<Fill> = vec![];
+            for i in 0..13u64 {
+                fills.push(match i % 4 {
+                    0 => Box::new(move |bl| bl.assign(sa(), add(a(), k(i)))),
+                    1 => Box::new(move |bl| bl.assign(sb(), add(a(), b()))),
+                    2 => Box::new(move |bl| { bl.assign(sb(), k(i)); bl.assign(sa(), b()); }),
+                    _ => nopb(),
+                });
+            }
+            ("fixed:lengauer-tarjan", fills, sk)
+        }
+        _ => {
+            // a ladder: long dominator chains, back edges two levels up, cross edges (path compression in `compress`)
+            let n = 12usize;
+            let mut sk = vec![];
+            for h in 0..n {
+                let mut ts = vec![];
+                if h + 1 < n { ts.push(h + 1); }
+                if h % 3 == 2 && h >= 2 { ts.push(h - 2); }
+                if h % 4 == 1 && h + 3 < n { ts.push(h + 3); }
+                sk.push(ts);
+            }
+            let mut fills: Vec<Fill> = vec![];
+            for i in 0..n as u64 {
+                fills.push(if i % 3 == 0 { Box::new(move |bl| bl.assign(sa(), add(a(), k(i)))) }
+                           else if i % 3 == 1 { Box::new(move |bl| bl.assign(sb(), add(b(), a()))) }
+                           else { nopb() });
+            }
+            ("fixed:ladder", fills, sk)
+        }
+    };
+    let mut cfg = ControlFlowGraph::new();
+    let mut addr = 0x40;
+    for fill in &fills {
+        let bl = cfg.new_block().unwrap();
+        fill(bl);
+        for i in bl.instructions_mut() {
+            i.set_address(Some(addr));
+            addr += 4;
+        }
+    }
+    let f1 = il::expr_scalar("f", 1);
+    let not = |e: Expression| Expression::cmpeq(e, il::expr_const(0, 1)).unwrap();
+    for (h, ts) in sk.iter().enumerate() {
+        match ts.len() {
+            0 => {}
+            1 => cfg.unconditional_edge(h, ts[0]).unwrap(),
+            2 => {
+                cfg.conditional_edge(h, ts[0], f1.clone()).unwrap();
+                cfg.conditional_edge(h, ts[1], not(f1.clone())).unwrap();
+            }
+            _ => {
+                let lt1 = Expression::cmpltu(b(), k(1)).unwrap();
+                let lt2 = Expression::cmpltu(b(), k(3)).unwrap();
+                cfg.conditional_edge(h, ts[0], lt1.clone()).unwrap();
+                cfg.conditional_edge(h, ts[1], Expression::and(not(lt1), lt2.clone()).unwrap()).unwrap();
+                cfg.conditional_edge(h, ts[2], not(lt2)).unwrap();
+            }
+        }
+    }
+    cfg.set_entry(0).unwrap();
+    Some((p, sk, name, Function::new(0x40, cfg)))
+}
+
 fn gen_case(seed: u64, idx: u64) -> Case {
     let mut rng = Rng::for_case(seed, idx);
     let r = &mut rng;
@@ -365,7 +488,18 @@ fn gen_case(seed: u64, idx: u64) -> Case {
     let shape = if guard_only && r.chance(1, 2) { 0 } else { r.below(12) };
     let p = pools(r, guard_only, intrinsics);
     let (sk, shape_name) = skeleton(r, shape);
-    let f = build(r, &p, &sk, 0x100 * (1 + idx % 7), gaps);
+    let mut f = build(r, &p, &sk, 0x100 * (1 + idx % 7), gaps);
+    // the first NFIXED cases of every seed are the fixed shapes (initial states still come from the seed)
+    let (p, sk, shape_name, guard_only, intrinsics) = match fixed_case(idx) {
+        Some((p2, sk2, name2, f2)) => {
+            f = f2;
+            (p2, sk2, name2, false, false)
+        }
+        None => (p, sk, shape_name, guard_only, intrinsics),
+    };
+    // minimisation protocol (`--keep p0,p1,..`): dropped instructions become `nop` (indices, edges, pool unchanged)
+    let nelems = nop_dropped(&mut f, 0);
+    let f = f;
     let obs = observe(|| falcon::transformation::ssa_transformation(&f));
 
     let mut it = Interner::new();
@@ -478,8 +612,8 @@ fn gen_case(seed: u64, idx: u64) -> Case {
             }
         }
     }
-    let descr = format!("f: {} ==> ssa: {} || inits: {}{}", render(&f), out_descr, init_descr.join(" / "), div);
-    Case { key: format!("{:x}", hash(&coq)), coq, descr, tags, nontrivial: joins > 0 }
+    let descr = format!("{}f: {} ==> ssa: {} || inits: {}{}", keep_prefix("instructions", nelems), render(&f), out_descr, init_descr.join(" / "), div);
+    Case { key: format!("{:x}", hash(&coq)), coq, descr, tags, nontrivial: joins > 0 }.with_elements(nelems)
 }
 
 fn hash(s: &str) -> u64 {
